@@ -17,7 +17,7 @@ orig = sc.Ctx.solve
 def solve(self, extra, kind="goal", **k):
     t = time.time(); r = orig(self, extra, kind=kind, **k); dt = time.time() - t
     if dt > slow:
-        print("SLOW %s %.1fs -> %s full=%s nextra=%d %s" % (kind, dt, r[0], k.get("full"), len(extra), str(extra[0])[:200].replace("\n", " ") if extra else ""))
+        print("SLOW %s %.1fs -> %s full=%s nextra=%d %s" % (kind, dt, r[0], k.get("full"), len(extra), extra[0].sexpr()[:3000] if os.environ.get("DBG_FULL") else str(extra[0])[:200].replace("\n", " ") if extra else ""))
     return r
 sc.Ctx.solve = solve
 cs = [c for c in h.cases(tier, 0) if c["name"] == name][0]
